@@ -42,7 +42,7 @@
     second record in the implementation (known finding data-pointer). *)
 From DV Require Import Model.Base Model.NameCheck Model.Parser Model.Header Model.Readers Model.Uncompress
   Model.Mutate Spec.NameSpec Spec.PacketSpec Spec.RecordSpec Proofs.Hoare Proofs.HeaderBits Proofs.InsertLemmas
-  Spec.PlainSpec Proofs.WalkValues Proofs.SetTtl Proofs.WalkSkip Proofs.PlainWf Proofs.InsertSpec Proofs.SetTtlInv Proofs.DeleteInv Proofs.SetNameInv Proofs.ReplaceInv Proofs.WalkInv Proofs.DecompressFirst.
+  Spec.PlainSpec Proofs.WalkValues Proofs.SetTtl Proofs.WalkSkip Proofs.PlainWf Proofs.InsertSpec Proofs.SetTtlInv Proofs.DeleteInv Proofs.SetNameInv Proofs.ReplaceInv Proofs.WalkInv Proofs.DecompressFirst Proofs.NameCheckTotal.
 From Coq Require Import Lia.
 
 Theorem C09_insert_appends : forall sec rr v it s',
@@ -290,3 +290,20 @@ Theorem C09_delete_on_parsed_packet : forall p v qls qt lA lN lR sec l1 r x l2 n
     map unpl (sec_list sec lA' lN' lR') = map unpl l1 ++ map unpl l2 /\ other_sections_kept sec lA lN lR lA' lN' lR'.
 Proof. exact delete_on_fresh_parse. Qed.
 Print Assumptions C09_delete_on_parsed_packet.
+
+(** the owner-name setter through a cursor on a packet as the parser returned it: [U1], [U2] are the records before and after it in the
+    whole list of records, without positions *)
+Theorem C09_set_name_on_parsed_packet : forall nm p v qls qt lA lN lR sec l1 r x l2 n s',
+  bytes_ok p -> bytes_ok nm -> parse p = Ok v -> reading p qls qt lA lN lR -> sec = SAnswer \/ sec = SNameServers \/ sec = SAdditional ->
+  sec_list sec lA lN lR = l1 ++ (r, x) :: l2 -> is_opt r = false ->
+  m_set_raw_name nm (v, cur_on sec r n) = (s', Ok tt) ->
+  dinv (fst s') /\
+  exists n0 ls lA' lN' lR' U1 U2,
+    check_compressed_name nm 0 = Ok n0 /\ firstn n0 nm = wire_of_labels ls /\ name_ok ls /\
+    reading (pp_packet (fst s')) qls qt lA' lN' lR' /\
+    length lA' = length lA /\ length lN' = length lN /\ length lR' = length lR /\
+    map unpl (lA ++ lN ++ lR) = U1 ++ unpl (r, x) :: U2 /\
+    map unpl (lA' ++ lN' ++ lR') = U1 ++ unpl (with_labels (r, x) ls) :: U2 /\
+    length U1 = (match sec with SAnswer => 0 | SNameServers => length lA | _ => length lA + length lN end) + length l1.
+Proof. exact set_name_on_fresh_parse. Qed.
+Print Assumptions C09_set_name_on_parsed_packet.
